@@ -88,9 +88,8 @@ Theorem C15_argmax_exact : forall p r k, Forall ok_ph (p :: r) -> (k < length (p
   argmax (p :: r) = k.
 Proof. exact argmax_exact. Qed.
 
-(* argsort / sort (stable insertion by the key (rounded cycle, remainder) -- the order np.lexsort produces): every index exactly
-   once, for EVERY list (no hypothesis); the output is sorted by that key whenever the keys are finite doubles; and the first key
-   component decides exactly: a smaller rounded cycle means a strictly smaller exact value (monotone rounding) *)
+(* argsort / sort (stable insertion by the key (count, fraction) on the two stored doubles -- the order np.lexsort produces): every index
+   exactly once, for EVERY list (no hypothesis); the output is sorted by that key whenever the keys are finite doubles *)
 Theorem C15_argsort_perm : forall l, Permutation (argsort l) (seq 0 (length l)).
 Proof. exact argsort_perm. Qed.
 Theorem C15_sort_perm : forall l, Permutation (psort l) l.
@@ -99,25 +98,24 @@ Theorem C15_argsort_sorted_partial : forall l, Forall good_key (keyed l) ->
   argsort l = map (fun k : key => snd k) (isort key key_le (keyed l)) /\
   StronglySorted (fun a b => key_le a b = true) (isort key key_le (keyed l)).
 Proof. intros l G. split; [apply argsort_is|apply argsort_sorted; exact G]. Qed.
+(* the single-double cycle (still what argmin / argmax start from) is monotone: a smaller rounded cycle is a strictly smaller exact value *)
 Theorem C15_cycle_order_exact : forall a b, ok_ph a -> ok_ph b -> PrimFloat.ltb (cycle a) (cycle b) = true -> V a < V b.
 Proof. exact cycle_lt_exact. Qed.
 
-(* the second key: ok_int q := real, finite, INTEGER count k with |k| <= 2^51 - 3, |frac| <= 1/2 + 2^-50.
-   remainder q = (q - approx).cycle (approx built as a Phase, Phase - Phase, rounding) is finite and within 2^-51 of V q - approx;
-   so argsort / sort put the phases in exact order up to 2^-50 cycles: for any two positions i < j of the result,
-   V (l[out_i]) <= V (l[out_j]) + 2^-50 -- near-ties below the resolution of the rounded cycle included *)
-Theorem C15_remainder : forall p, ok_int p ->
-  fin (remainder p) /\ Rabs (R_of (remainder p) - (V p - R_of (cycle p))) <= bpow radix2 (-51).
-Proof. exact remainder_sound. Qed.
-Theorem C15_argsort_ordered : forall l, Forall ok_int l ->
-  StronglySorted (fun i j => V (nth i l dflt) <= V (nth j l dflt) + bpow radix2 (-50)) (argsort l).
+(* EXACT order (after repair D26): ok_norm q := finite doubles, an INTEGER count, |frac| <= 1/2 -- what every Phase operation returns
+   (C07).  On such phases the key order is the order of the exact values, so argsort / sort put the phases in exact order: for any two
+   positions i < j of the result, V (l[out_i]) <= V (l[out_j]) -- however close the two are, at any count *)
+Theorem C15_key_order_exact : forall (a b : ph) (i j : nat), ok_norm a -> ok_norm b ->
+  (key_le (key_of a i) (key_of b j) = true -> V a <= V b) /\ (V a < V b -> key_le (key_of b j) (key_of a i) = false).
+Proof. exact (fun a b i j Ha Hb => conj (key_le_V a b i j Ha Hb) (key_lt_V a b i j Ha Hb)). Qed.
+Theorem C15_argsort_ordered : forall l, Forall ok_norm l ->
+  StronglySorted (fun i j => V (nth i l dflt) <= V (nth j l dflt)) (argsort l).
 Proof. exact argsort_ordered. Qed.
-Theorem C15_sort_ordered : forall l, Forall ok_int l ->
-  StronglySorted (fun a b => V a <= V b + bpow radix2 (-50)) (psort l).
+Theorem C15_sort_ordered : forall l, Forall ok_norm l -> StronglySorted (fun a b => V a <= V b) (psort l).
 Proof. exact psort_ordered. Qed.
 
 (* PARTIAL (carried by the exact correspondence + monitor on every run): ptp (Model/PhaseOrd.v is compared index for index and bit
-   for bit), ties closer than 2^-50 (first-occurrence / stability rule), counts between 2^51 and 2^52 for the sort theorems, the
+   for bit), ties of argmin / argmax closer than 2^-50 (first-occurrence rule), the
    float-level parser (count, frac as doubles) being within 2^-52 of the exact parser above, to_string = exact value rounded to the
    digits shown, from_string (to_string p) = p. *)
 
